@@ -4,6 +4,7 @@ import (
 	"context"
 	"encoding/base64"
 	"fmt"
+	"io"
 	"math/rand"
 	"net/http"
 	"net/url"
@@ -20,7 +21,10 @@ import (
 	"google.golang.org/genproto/googleapis/api/annotations"
 	"google.golang.org/genproto/googleapis/api/serviceconfig"
 	"google.golang.org/grpc"
+	"google.golang.org/grpc/codes"
+	"google.golang.org/grpc/metadata"
 	"google.golang.org/grpc/stats"
+	"google.golang.org/grpc/status"
 	"google.golang.org/protobuf/encoding/protojson"
 	"google.golang.org/protobuf/proto"
 	"larking.io/larking"
@@ -60,6 +64,7 @@ type ReqSpec struct {
 	Sep       string      `json:"sep,omitempty"` // json streams: separator between objects
 	Timeout   string      `json:"timeout,omitempty"`
 	PingPong  bool        `json:"ping_pong,omitempty"`
+	TwinOf    int         `json:"twin_of,omitempty"`   // C10: the same call script run directly against the backend (not through larking)
 	LateClose bool        `json:"late_close,omitempty"` // the client half-closes only after it has seen the call end (it waits for the server's verdict first)
 	Handler   HandlerSpec `json:"handler"`
 	Fault     ReqFault    `json:"fault"`
@@ -74,6 +79,14 @@ type ReqSpec struct {
 	Round     int         `json:"round,omitempty"`    // registrysim: probe of the round after this many registrar operations (0: not gated)
 	Raw       *RawProbe   `json:"raw,omitempty"`      // C16: a request given by verb and path
 	MD        [][2]string `json:"md,omitempty"`       // extra request metadata
+}
+
+// payloadID: a direct twin sends and expects the payloads of the request it mirrors.
+func (sp *ReqSpec) payloadID() int {
+	if sp.TwinOf != 0 {
+		return sp.TwinOf
+	}
+	return sp.ID
 }
 
 type MuxScenario struct {
@@ -113,6 +126,7 @@ type reqState struct {
 
 	hlog HLog // local handler (or the proxy-side view is not scripted)
 	blog HLog // backend handler, when proxied
+	direct   directResult // what a direct twin's grpc-go client saw
 	servedBy []string // tags of the handlers that were entered for this request
 	servedMethods []string // full names of the methods that were entered
 
@@ -229,13 +243,13 @@ func marshalMsg(codec string, m proto.Message) []byte {
 // clientMsg is the message the client encodes (no path-bound fields: those
 // travel in the URL).
 func (r *reqState) clientMsg(i int) proto.Message {
-	p := payloadFor(r.spec.ID, i, 'C', r.spec.Msgs[i])
+	p := payloadFor(r.spec.payloadID(), i, 'C', r.spec.Msgs[i])
 	return r.method.mkReq(p, "")
 }
 
 // expectedReq is the message the handler must see for client message i.
 func (r *reqState) expectedReq(i int) proto.Message {
-	p := payloadFor(r.spec.ID, i, 'C', r.spec.Msgs[i])
+	p := payloadFor(r.spec.payloadID(), i, 'C', r.spec.Msgs[i])
 	pv := ""
 	if i == 0 && (r.spec.Proto == "http" || r.spec.Proto == "ws") {
 		pv = r.boundPathVar()
@@ -354,7 +368,7 @@ func (r *reqState) encode() {
 		case sp.Codec == "body":
 			h.Set("Content-Type", "image/jpeg")
 			for i := range sp.Msgs {
-				w = append(w, payloadFor(sp.ID, i, 'C', sp.Msgs[i])...)
+				w = append(w, payloadFor(sp.payloadID(), i, 'C', sp.Msgs[i])...)
 			}
 			r.bounds = nil // chunk boundaries are decided by the receive limit
 		}
@@ -810,6 +824,11 @@ func runMuxScenario(t *testing.T, sc *MuxScenario, tape *core.Tape) *muxRun {
 		}
 		for _, rs := range mr.reqs {
 			rs := rs
+			if rs.spec.TwinOf != 0 {
+				rs.setFaultDone()
+				go rs.directTask(mr.backendByTag(rs.spec.Backend))
+				continue
+			}
 			go rs.clientTask()
 			go rs.serverTask(mux)
 			if k := rs.spec.Fault.Kind; k == "abort" || k == "wbreak" || k == "bkill" {
@@ -989,4 +1008,80 @@ func blockedLarkingFrames() []string {
 	}
 	sort.Strings(out)
 	return out
+}
+
+// ---- direct twin: the same call script against the backend itself ---------------------
+
+type directResult struct {
+	Done   bool
+	Msgs   []proto.Message
+	Status *status.Status
+	Err    error // could not even start
+}
+
+// directTask is a plain grpc-go client calling the backend over its own
+// connection (the one larking uses), with yields between its operations.
+func (r *reqState) directTask(b *backend) {
+	defer r.setClientDone()
+	defer r.q.finish()
+	if !r.cSlot.Yield("d.start", core.Always, 0) {
+		return
+	}
+	sp := r.spec
+	mi := r.method
+	md := metadata.Pairs("x-sim-req", strconv.Itoa(sp.ID))
+	for _, kv := range sp.MD {
+		k, v := strings.ToLower(kv[0]), kv[1]
+		if strings.HasSuffix(k, "-bin") {
+			raw, _ := base64.RawStdEncoding.DecodeString(v)
+			v = string(raw)
+		}
+		md.Append(k, v)
+	}
+	ctx := metadata.NewOutgoingContext(r.q.ctx, md)
+	res := &r.direct
+	defer func() { res.Done = true }()
+	if !mi.ClientS && !mi.ServerS {
+		reply := mi.newResp()
+		err := b.cc.Invoke(ctx, mi.Full(), r.clientMsg(0), reply)
+		res.Status = status.Convert(err)
+		if err == nil {
+			res.Msgs = append(res.Msgs, reply)
+		}
+		return
+	}
+	cs, err := b.cc.NewStream(ctx, &grpc.StreamDesc{ClientStreams: mi.ClientS, ServerStreams: mi.ServerS}, mi.Full())
+	if err != nil {
+		res.Err = err
+		res.Status = status.Convert(err)
+		return
+	}
+	for i := range sp.Msgs {
+		if !r.cSlot.Yield("d.send", core.Always, 0) {
+			return
+		}
+		if err := cs.SendMsg(r.clientMsg(i)); err != nil {
+			break // io.EOF: the call already ended; RecvMsg tells how
+		}
+	}
+	if !r.cSlot.Yield("d.close", core.Always, 0) {
+		return
+	}
+	cs.CloseSend()
+	for {
+		if !r.cSlot.Yield("d.recv", core.Always, 0) {
+			return
+		}
+		m := mi.newResp()
+		err := cs.RecvMsg(m)
+		if err == io.EOF {
+			res.Status = status.New(codes.OK, "")
+			return
+		}
+		if err != nil {
+			res.Status = status.Convert(err)
+			return
+		}
+		res.Msgs = append(res.Msgs, m)
+	}
 }
